@@ -61,13 +61,22 @@ class Typed(pg.Object):
   u: T.Union([T.Int(), T.Str(), T.List(T.Any())]).noneable() = None
 
 
+class HT(pg.Object):
+  """Typed host for hyper placeholders (fields bind value specs to the placeholders)."""
+  i: T.Int(min_value=0, max_value=9) = 0
+  f: T.Float(min_value=0.0, max_value=100.0).noneable() = None
+  l: T.List(T.Int(min_value=0, max_value=9), max_size=3) = []
+  s: T.Str() = 'a'
+  a: T.Any() = None
+
+
 class Req(pg.Object):
   """Has a required field (no default), so it can be partial."""
   r: T.Int()
   n: T.Any() = None
 
 
-CLASSES = {c.__name__: c for c in (P, Q, R, W, NC, Typed, Req)}
+CLASSES = {c.__name__: c for c in (P, Q, R, W, NC, Typed, Req, HT)}
 UNTYPED = ('P', 'Q', 'R', 'W')
 FIELDS = {'P': ('x', 'y'), 'Q': ('x', 'y'), 'R': ('x', 'y', 'z'), 'W': ('a', 'b'),
           'NC': ('x', 'y'), 'Typed': ('i', 's', 'e', 'l', 'd', 't', 'o', 'u'), 'Req': ('r', 'n')}
